@@ -298,20 +298,33 @@ class PendGen(histgen.HistGen):
         acts.append(a)
     top = max(fcs, key=self.level_of)
     acts.append(['ModifyColumn', tid, r.choice([top, r.choice(fcs)])['colId'], {'isFormula': False}])
-    for _ in range(r.randint(1, 3)):
-      k = r.choice(['rencol', 'rmcol', 'rmcol', 'rentable', 'rmtable', 'rmrec', 'addrec', 'modtype'])
-      if k in ('rencol', 'rmcol') and fcs:
-        c = r.choice(fcs)['colId']
-        acts.append(['RenameColumn', tid, c, r.choice(histgen.COL_NAMES)] if k == 'rencol' else ['RemoveColumn', tid, c])
+    fnames = [c['colId'] for c in fcs]
+    used_t = {x['tableId'] for x in meta.tables.values()}
+    for _ in range(r.randint(1, 4)):
+      k = r.choice(['rencol', 'rmcol', 'rmcol', 'rentable', 'rentable', 'rmtable', 'rmrec', 'addrec', 'modtype'])
+      if k in ('rencol', 'rmcol') and fnames:
+        c = r.choice(fnames)
+        if k == 'rencol':
+          new = 'q%d' % r.randint(1, 99)           # a valid, unused identifier: the engine keeps it as it is
+          acts.append(['RenameColumn', tid, c, new])
+          fnames[fnames.index(c)] = new
+        else:
+          acts.append(['RemoveColumn', tid, c])
+          fnames.remove(c)
       elif k == 'rentable':
-        new = r.choice(histgen.TABLE_NAMES)
+        new = 'Zz%d' % r.randint(1, 99)
+        if new in used_t:
+          continue
         acts.append(['RenameTable', tid, new])
-        break                                  # later actions would use the old table id
+        used_t.add(new)
+        tid = new                                  # later actions of the bundle use the new id
       elif k == 'rmtable':
         acts.append(['RemoveTable', tid])
         break
       else:
         a = self._on_table(t, k, meta)
+        if a and len(a) > 1 and a[1] == t['tableId']:
+          a = [a[0], tid] + a[2:]
         if a:
           acts.append(a)
     self.stats['directed'] += 1
